@@ -136,6 +136,35 @@ func (c *Ctx) lookupObj(q string) types.Object {
 	return nil
 }
 
+// bestPos: the position of an instruction, or of the nearest positioned instruction after
+// it in its block, or of its function (MakeInterface and friends carry no position).
+func bestPos(in ssa.Instruction) token.Pos {
+	if in.Pos().IsValid() {
+		return in.Pos()
+	}
+	b := in.Block()
+	if b != nil {
+		seen := false
+		for _, x := range b.Instrs {
+			if x == in {
+				seen = true
+			}
+			if seen && x.Pos().IsValid() {
+				return x.Pos()
+			}
+		}
+		for i := len(b.Instrs) - 1; i >= 0; i-- {
+			if b.Instrs[i].Pos().IsValid() {
+				return b.Instrs[i].Pos()
+			}
+		}
+	}
+	if in.Parent() != nil {
+		return in.Parent().Pos()
+	}
+	return token.NoPos
+}
+
 // ---------------------------------------------------------------------------
 // iteration
 
